@@ -71,6 +71,10 @@ def eval_tt(tt, c, X, Y, body, head, red, W=None):
     d = c.d
     if head == "slice":
         T = T[(1,) + (slice(None),) * (d - 1)] if d > 1 else T[(slice(1, None),)]
+    elif head == "ell":
+        T = T[...]
+    elif head == "rslice":
+        T = T[(slice(0, c.N[0] - 1), Ellipsis)]
     elif head == "cat":
         T = tt.cat((T, Y), 0)
     elif head == "pad":
@@ -88,7 +92,8 @@ def eval_tt(tt, c, X, Y, body, head, red, W=None):
 
 def result_shape(c, head):
     N, d = c.N, c.d
-    if head in ("id", "full", "bcast"): return list(N)
+    if head in ("id", "full", "bcast", "ell"): return list(N)
+    if head == "rslice": return [N[0] - 1] + list(N[1:])
     if head == "slice": return list(N[1:]) if d > 1 else [N[0] - 1]
     if head == "cat": return [2 * N[0]] + list(N[1:])
     if head == "pad": return list(N[:-1]) + [N[-1] + 1]
@@ -148,6 +153,8 @@ def eval_dense(c, xl, yl, body, head, red, wl=None):
     T = B(body)
     if head == "slice":
         T = T[1] if d > 1 else T[1:]
+    elif head == "rslice":
+        T = T[0:N[0] - 1]
     elif head == "cat":
         T = torch.cat((T, Yd), 0)
     elif head == "pad":
@@ -181,7 +188,7 @@ def handler(st, opts):
     S, body, head, red, track = st["s"], st["body"], st["head"], st["red"], st["track"]
     seed = opts.get("seed", 0)
     c = setup(tt, S, seed)
-    if head == "slice" and c.N[0] < 2:
+    if head in ("slice", "rslice") and c.N[0] < 2:
         return None
     problems, stats = [], {"behaviours": 1, "calls": 1}
     key = {"op": "grad", "head": head, "red": red, "track": track, "body": body["op"], "d": c.d}
